@@ -359,6 +359,14 @@ def _device_connect(ctx, R, roles, T):
         and [varkey(t) for t in st.targets[0].elts] == [selfn + "._available", selfn + "._maxdata"] and unawait(st.value) is c
     R.check(ok, "HS-device", f.qualname + "|adopts", "the manager's (connected, maxdata) is stored in (_available, _maxdata), in that order",
             "the manager's result is not unpacked into (_available, _maxdata) in that order: `%s`" % norm_stmt(st), f.loc(st))
+    # "whenever connect() raises the device is left unavailable": the flag is cleared before the attempt, on every path
+    falses = [x for x in g.live_nodes() if x.kind == "stmt" and isinstance(x.ast, ast.Assign) and any(varkey(t) == selfn + "._available" for t in x.ast.targets)
+              and isinstance(x.ast.value, ast.Constant) and x.ast.value.value is False]
+    R.check(bool(falses) and g.dominates(falses, n), "HS-device", f.qualname + "|unavailable-first", "the device is marked unavailable before the connection attempt (a raising connect() leaves it unavailable)",
+            "availability is not cleared before the connection attempt on every path: after a successful connect(), a later connect() that raises leaves available == True", f.loc(n.ast))
+    for x in g.live_nodes():
+        if x.kind == "stmt" and isinstance(x.ast, ast.Assign) and any(varkey(t) == selfn + "._available" for t in x.ast.targets) and x not in falses and x is not n:
+            R.fail("HS-device", "%s|%s" % (f.qualname, norm_stmt(x.ast)), "availability is set from something other than False / the manager's result", f.loc(x.ast))
     # maxdata writers
     for m in roles.dev_cls.methods.values():
         for k, s, kind_ in attr_writes(m):
